@@ -267,6 +267,7 @@ theorem run_recorder_appends (ops : List Op) (sr : St (List Chunk)) :
     | enter w => simpa [run, step] using ih _
     | leave => simpa [run, step] using ih _
     | fail id => exact ⟨[], by simp [run, step]⟩
+    | panic => exact ⟨[], by simp [run, step]⟩
 
 /-- **Simulation.**  Run the same operations against any base writer `b` and against the
     recorder, from states with the same capture stack and nesting: the base writer ends in the
@@ -340,6 +341,7 @@ theorem run_sim {B : Type} [FmtWrite B] (ops : List Op) (st : St B) (sr : St (Li
       simp only [run, step]
       exact ih _ _ rfl rfl
     | fail id => exact ⟨[], by simp [run, step, feed]⟩
+    | panic => exact ⟨[], by simp [run, step, feed]⟩
 
 /-- **Captures are invisible to the base writer.**  Deleting all captured regions changes
     neither what reaches the base writer nor the result. -/
@@ -391,6 +393,7 @@ theorem run_erase {B : Type} [FmtWrite B] (ops : List Op) (d : Nat) (st se : St 
       simp only [erase, run, step]
       exact ih _ ⟨⟨w, stack⟩, wraps.tail⟩ ⟨⟨w, []⟩, wraps.tail⟩ rfl rfl rfl rfl
     | fail id => simp [erase, run, step]
+    | panic => simp [erase, run, step]
 
 /-- the only panic of the output machinery is an `end_capture` without `begin_capture` -/
 theorem run_no_panic {B : Type} [FmtWrite B] (ops : List Op) (st : St B)
@@ -431,6 +434,7 @@ theorem run_no_panic {B : Type} [FmtWrite B] (ops : List Op) (st : St B)
       simp only [run, step]
       exact ih _ (by simpa using hb)
     | fail id => simp [run, step]
+    | panic => simp [balanced] at hb
 
 /-! ## the API boundaries in terms of `feed` -/
 
